@@ -138,7 +138,14 @@ LaySS(ss, ind, ln) ==
 
 \* ---- declarations
 RParam(p) == p.n \o (IF p.ty = "" THEN "" ELSE ": " \o p.ty) \o (IF p.d.k = "none" THEN "" ELSE " = " \o RE(p.d, 0))
+\* `fn name(params) -> ret = expr` (style "expr": the body is one expression statement on the header line)
+IsExprFn(d) == "style" \in DOMAIN d /\ d.style = "expr"
 LayFn(d, file, ln) ==
+  IF IsExprFn(d) THEN
+  [lines |-> <<"fn " \o d.n \o "(" \o JoinS([i \in 1..Len(d.ps) |-> RParam(d.ps[i])], ", ") \o ")" \o
+               (IF d.ret = "" THEN "" ELSE " -> " \o d.ret) \o " = " \o RE(d.body[1].e, 0)>>,
+   d |-> [d EXCEPT !.body = <<d.body[1] @@ [ln |-> ln]>>] @@ [ln |-> ln, file |-> file]]
+  ELSE
   LET b == LaySS(d.body, 1, ln + 1) IN
   [lines |-> <<"fn " \o d.n \o "(" \o JoinS([i \in 1..Len(d.ps) |-> RParam(d.ps[i])], ", ") \o ")" \o
                (IF d.ret = "" THEN "" ELSE " -> " \o d.ret) \o " {">> \o b.lines \o <<"}">>,
@@ -160,7 +167,8 @@ LayFns(fs, file, ln) ==
 
 \* file: [name, uses, types, fns, main]
 LayFile(f) ==
-  LET u == [i \in 1..Len(f.uses) |-> "use " \o f.uses[i]]
+  LET h == IF "header" \in DOMAIN f THEN f.header ELSE <<>>        \* raw leading lines (comments), shift every later line
+      u == h \o [i \in 1..Len(f.uses) |-> "use " \o f.uses[i]]
       t == [i \in 1..Len(f.types) |-> RType(f.types[i])]
       fn == LayFns(f.fns, f.name, 1 + Len(u) + Len(t))
       m == LaySS(f.main, 0, 1 + Len(u) + Len(t) + Len(fn.lines))
